@@ -235,6 +235,7 @@ impl<T, Ptr: PointerFamily> MetaSlotMap<T, Ptr> {
         if next != INVALID {
             self.idx_to_data_free_list[next].previous = INVALID;
         }
+        self.idx_to_data_free_list[free_idx].next = INVALID;
         self.idx_to_data_free_list_head = next;
         Some(free_idx)
     }
